@@ -29,6 +29,7 @@ class CaseResult:
         self.enumerated = set()        # op indices whose exhausted set went through MCEnum
         self.trace_map = []            # trace index -> (op index, experiment index)
         self.mults = {}                # op index -> {experiment index: Mult(seq)} (R11)
+        self.mults_doc = {}            # the same with the documentation's reading for partially crossed factors (MultDoc)
 
     def op(self, i):
         return self.obs[i] if i < len(self.obs) else None
@@ -69,6 +70,7 @@ def run_design(cases, ops_fn, exhaust=lambda op: op.get("exhaust"), op_timeout=1
             oi, ei = r.trace_map[rec[2] - 1]
             r.verdicts.setdefault(oi, {})[ei] = rec[3]
             r.mults.setdefault(oi, {})[ei] = rec[4] if len(rec) > 4 else 0
+            r.mults_doc.setdefault(oi, {})[ei] = rec[5] if len(rec) > 5 else 0
     for r in results:
         if r.nb is None:
             raise tlc.TLCError("no NB record for case %s" % r.case.get("id"))
